@@ -6,6 +6,7 @@ import json
 import os
 import re
 import subprocess
+import tempfile
 import sys
 import threading
 import time
@@ -94,6 +95,16 @@ def build_model():
 # running case files
 # --------------------------------------------------------------------------------------------
 
+MEMLIMIT = 0   # bytes of address space for harness processes (0 = unlimited); set by checks that provoke huge allocations
+
+
+def limited(argv):
+    """argv run under the address-space limit (through the shell: preexec_fn is not safe with threads)"""
+    if not MEMLIMIT:
+        return argv
+    return ["/bin/sh", "-c", "ulimit -v %d; exec \"$0\" \"$@\"" % (MEMLIMIT // 1024)] + list(argv)
+
+
 def _run_shard(binary, lines, per_case_timeout, env=None):
     """Feeds `lines` (each '(id cmd ...)') to `binary`; returns {id: result-sexp-text}.
     The harness prints '<id>\t(start)' before each case so that a crash or time-out is attributed."""
@@ -102,8 +113,9 @@ def _run_shard(binary, lines, per_case_timeout, env=None):
     ids = [sx.loads(ln)[0] for ln in todo]
     pos = 0
     while pos < len(todo):
-        proc = subprocess.Popen([binary], stdin=subprocess.PIPE, stdout=subprocess.PIPE,
-                                stderr=subprocess.DEVNULL, env=env or ENV, text=True, errors="replace")
+        errf = tempfile.TemporaryFile() if MEMLIMIT else None
+        proc = subprocess.Popen(limited([binary]), stdin=subprocess.PIPE, stdout=subprocess.PIPE,
+                                stderr=errf if errf is not None else subprocess.DEVNULL, env=env or ENV, text=True, errors="replace")
         chunk = todo[pos:]
 
         def feed(p=proc, c=chunk):
@@ -164,7 +176,12 @@ def _run_shard(binary, lines, per_case_timeout, env=None):
         if killed and started is not None:
             results[started] = "(timeout)"
         elif started is not None and started not in results:
-            results[started] = "(crash %s)" % proc.returncode
+            why = ""
+            if errf is not None:
+                errf.seek(0)
+                tail = errf.read()[-400:]
+                why = " memory" if b"memory allocation of" in tail else (" stack" if b"overflowed its stack" in tail else "")
+            results[started] = "(crash %s%s)" % (proc.returncode, why)
         elif done == len(ids) - pos:
             break
         # resume after the last case that has a result
